@@ -73,7 +73,7 @@ def NumLit.fdigits (n : NumLit) : List Nat := match n.fp with | none => [] | som
 
 /-- the number a literal without exponent denotes -/
 def NumLit.value (n : NumLit) : Rat :=
-  ((digitsVal (n.ip ++ n.fdigits) : Nat) : Rat) / ((10 ^ n.fdigits.length : Nat) : Rat)
+  ((digitsVal (n.ip ++ n.fdigits) : Nat) : Rat) / (10 : Rat) ^ n.fdigits.length
 
 /-- a literal that may carry a `%`: no exponent, and small enough to be a finite double -/
 def NumLit.PctOK (n : NumLit) : Prop := n.exp = none ∧ n.ip.length ≤ 300
